@@ -1,7 +1,213 @@
 package main
 
-func cggmpCount(tier string) int { return 0 }
-func cggmpHas(policy string) bool { return false }
+import (
+	"bytes"
+	"fmt"
+	"math/big"
+	"os"
+	"strings"
+
+	"github.com/bronlabs/bron-crypto/pkg/base/curves/k256"
+
+	dcg "verif/harness/internal/drive/cggmp21"
+	ddkls "verif/harness/internal/drive/dkls23"
+	"verif/harness/internal/drive/keys"
+	"verif/harness/internal/vh"
+)
+
+var cggmpPolicies = []string{"T:2:1,2,3"}
+
+func cggmpAvailable() []string {
+	var out []string
+	for _, p := range cggmpPolicies {
+		if _, err := os.Stat(keys.CggmpPath("k256", p)); err == nil {
+			out = append(out, p)
+		}
+	}
+	return out
+}
+
+func genCggmpKeys() {
+	for i, p := range cggmpPolicies {
+		if _, err := os.Stat(keys.CggmpPath("k256", p)); err == nil {
+			continue
+		}
+		fmt.Fprintln(os.Stderr, "generating CGGMP21 key material for", p)
+		if err := keys.GenerateCggmp(k256.NewCurve(), "k256", p, vh.NewRng(1, "C01", "cggmpkeys", i)); err != nil {
+			fmt.Fprintln(os.Stderr, "  failed:", err)
+		}
+	}
+}
+
+func cggmpCount(tier string) int {
+	if len(cggmpAvailable()) == 0 {
+		return 0
+	}
+	if tier == "thorough" {
+		return 8
+	}
+	return 1
+}
+
+func cggmpCases(seed int64, count int) []kase {
+	avail := cggmpAvailable()
+	var out []kase
+	for i := 0; i < count && len(avail) > 0; i++ {
+		rng := vh.NewRng(seed, "C01", "gen/cggmp", i)
+		ptxt := avail[i%len(avail)]
+		p, _ := keys.ParsePolicy(ptxt)
+		q := pickQuorum(p, rng, i%3 != 2, 3, 0)
+		if q == nil {
+			continue
+		}
+		out = append(out, kase{Proto: "cggmp21", Variant: "k256,sha256", Policy: ptxt, Quorum: q, Msg: msgSpec(i, rng, true), Session: "seeded", Seed: seed*1000 + int64(i)})
+	}
+	return out
+}
+
 func evalCggmp(idx int, k kase, o *outcome) {
-	o.propKey, o.propDetail = "cggmp21-not-wired", "driver missing"
+	v := strings.Split(k.Variant, ",")
+	if len(v) != 2 {
+		o.propKey, o.propDetail = "bad-case", k.Variant
+		return
+	}
+	res := dcg.RunFull(dcg.Config{Common: k.common(), Policy: k.Policy, Curve: v[0], Hash: v[1]})
+	key := "cggmp21-" + v[0]
+	if res.SetupErr != "" {
+		o.propKey, o.propDetail = key+"-setup-failed", res.SetupErr
+		return
+	}
+	o.nontrivial = true
+	msg := k.message()
+	fail := func(what, detail string) {
+		if o.propKey == "" {
+			o.propKey, o.propDetail = key+"-"+what, detail
+		}
+	}
+	if d := verdictsOK(res.Trace, res.Quorum, true); d != "" {
+		fail("honest-run-error", d)
+	}
+	hf, _ := ddkls.HashFunc(v[1])
+	h := hf()
+	h.Write(msg)
+	digest := h.Sum(nil)
+	if res.Sig == nil {
+		fail("no-signature", "the aggregator produced no signature")
+	} else {
+		if res.LibOK != "ok" {
+			fail("library-verifier-rejects", res.LibOK)
+		}
+		if !secpECDSAVerify(pt{x: res.PKX, y: res.PKY}, digest, res.Sig.R, res.Sig.S) {
+			fail("independent-verifier-rejects", res.Trace.Outputs[0])
+		}
+	}
+	var G []byte
+	for _, id := range res.Quorum {
+		if p := res.Partials[id]; p != nil {
+			if G == nil {
+				G = p.Gamma
+			} else if !bytes.Equal(G, p.Gamma) {
+				fail("partial-Gamma-differ", "parties' partial signatures carry different Gamma")
+			}
+		}
+	}
+	o.sigText = res.Trace.Outputs[0]
+
+	// ---- model tie: gamma_i (and k_i) are among the 48-byte reads of round 1; their position
+	// is found by matching (sum of the candidates)·G against Gamma
+	if res.Sig == nil || G == nil || len(res.Partials) != len(res.Quorum) {
+		return
+	}
+	q := res.Order
+	n := len(res.Quorum)
+	var cands [][][]byte // per party: the first 48-byte reads tagged r1
+	depth := 8
+	for _, id := range res.Quorum {
+		t := res.Trace.Tapes[id]
+		var c [][]byte
+		for _, ri := range readsTagged(t, "r1") {
+			if t.Reads[ri].N == 48 && len(c) < depth {
+				c = append(c, t.Slice(ri))
+			}
+		}
+		cands = append(cands, c)
+		if len(c) < depth {
+			depth = len(c)
+		}
+	}
+	gi := -1
+	for j := 0; j < depth; j++ {
+		s := new(big.Int)
+		for p := 0; p < n; p++ {
+			s.Add(s, leMod(cands[p][j], q))
+		}
+		if bytes.Equal(res.BaseMul(s), G) {
+			gi = j
+			break
+		}
+	}
+	if gi < 0 {
+		o.corr = append(o.corr, corrFail{key + "-tape-layout", "no 48-byte read position of round 1 sums to the exponent of Gamma"})
+		return
+	}
+	ki := 0
+	if gi == 0 {
+		ki = 1
+	}
+	var kt, gt [][]byte
+	for p := 0; p < n; p++ {
+		gt = append(gt, cands[p][gi])
+		kt = append(kt, cands[p][ki]) // k_i is not observable in the signature; any value works for the model
+	}
+	rng := vh.NewRng(k.Seed, "C01", "model", idx)
+	xs := split(rng, n, res.Secret, q)
+	mk := func() [][]*big.Int {
+		m := make([][]*big.Int, n)
+		for i := range m {
+			m[i] = make([]*big.Int, n)
+			for j := range m[i] {
+				m[i][j] = rng.BigBelow(q)
+			}
+		}
+		return m
+	}
+	beta, betah := mk(), mk()
+	x := new(big.Int).SetBytes(G[1:])
+	rx := new(big.Int).Mod(x, q)
+	m := bits2int256(digest)
+	m.Mod(m, q)
+	line := fmt.Sprintf("G %d %s %s %s %s %s %s %d %s %s %s %s %s", idx, vh.ZHex(q), vh.ZHex(m), vh.ZHex(res.Secret), vh.ZHex(rx), bitStr(G[0] == 3), bitStr(x.Cmp(q) >= 0), n,
+		hexlist(kt), hexlist(gt), zlist(xs), zmat(beta), zmat(betah))
+	sig := res.Sig
+	baseMul := res.BaseMul
+	o.model = append(o.model, modelCheck{line: line, cmp: func(out []string) (string, string) {
+		// G id some r s b0 b1 g | G id none g
+		if len(out) < 4 || out[0] != "G" {
+			return key + "-model-output", "unparsable model output"
+		}
+		if out[2] != "some" || len(out) != 8 {
+			return key + "-model-refuses", "the model's run returns an error, the implementation a signature"
+		}
+		if !bytes.Equal(baseMul(vh.UnZHex(out[7])), G) {
+			return key + "-Gamma-exponent", "ScalarBaseMul(sum gamma_i from tapes) != Gamma"
+		}
+		mr, ms := vh.UnZHex(out[3]), vh.UnZHex(out[4])
+		mv := 0
+		if out[5] == "1" {
+			mv++
+		}
+		if out[6] == "1" {
+			mv += 2
+		}
+		if mr.Cmp(sig.R) != 0 {
+			return key + "-r", fmt.Sprintf("r: impl %s model %s", vh.ZHex(sig.R), vh.ZHex(mr))
+		}
+		if ms.Cmp(sig.S) != 0 {
+			return key + "-s", fmt.Sprintf("s: impl %s model %s", vh.ZHex(sig.S), vh.ZHex(ms))
+		}
+		if sig.V != mv {
+			return key + "-recovery-id", fmt.Sprintf("v: impl %d model %d", sig.V, mv)
+		}
+		return "", ""
+	}})
 }
